@@ -712,6 +712,12 @@ def run (cfg):
   return rep
 
 
+def explains (known_key, key):
+  """A listed key explains itself and its refinements (e.g. C20:p2:send-after-fatal:DeferredSender.run explains
+  ...:DeferredSender.run:socket-already-shut)."""
+  return key == known_key or key.startswith(known_key + ":")
+
+
 def replay (cfg, data):
   c = dict(data["config"])
   if data.get("part") == 1:
